@@ -42,6 +42,7 @@ type c14Case struct {
 	StreamCustom   string    `json:"stream_custom,omitempty"` // stream + custom_limiter: "" both limiters configured | recv | send: only that one (the other stays the default)
 	CustomClass    bool      `json:"custom_classifier"`
 	CustomExceeded bool      `json:"custom_exceeded"`
+	ExcOnly        string    `json:"exc_only,omitempty"` // stream: "" = both directions get their own limit-exceeded classifier, recv | send = only that direction (the other keeps the default)
 	Named          bool      `json:"named,omitempty"`
 	OptOrder       []int     `json:"opt_order,omitempty"` // permutation applied to the option list (options must commute)
 	Calls          []c14Call `json:"calls"`
@@ -53,6 +54,7 @@ func genC14(t *rapid.T) c14Case {
 		CustomLimiter:  rapid.IntRange(0, 5).Draw(t, "cl") > 0,
 		CustomClass:    rapid.Bool().Draw(t, "cc"),
 		CustomExceeded: rapid.Bool().Draw(t, "ce"),
+		ExcOnly:        rapid.SampledFrom([]string{"", "", "recv", "send"}).Draw(t, "excOnly"),
 		Named:          rapid.Bool().Draw(t, "named"),
 	}
 	if c.Kind == "stream" {
@@ -143,17 +145,40 @@ func runC14(_ *testing.T, c c14Case) (out kit.Outcome) {
 	recvL := &c14Limiter{name: "recv", log: log, grant: &grant}
 	sendL := &c14Limiter{name: "send", log: log, grant: &grant}
 	exceededResp := &struct{ x int }{42}
+	// each direction of a stream gets a classifier of its own: it says who it is and chooses its own code
+	excCode := func(dir string, code int) codes.Code {
+		if dir == "send" {
+			return codes.Code((code + 5) % 17)
+		}
+		return codes.Code(code)
+	}
+	var exceededDir string
 	exceeded := func(ctx context.Context, method string, req interface{}, l core.Limiter) (interface{}, codes.Code, error) {
-		log.add("exceeded-classifier(%v)", l)
+		dir := exceededDir
+		tag := ""
+		if dir != "" {
+			tag = "-" + dir
+		}
+		log.add("exceeded-classifier%s(%v)", tag, l)
 		var err error = errors.New("over the limit")
 		other := codes.Code(cur.Code%16 + 1) // a code different from the chosen one
+		if dir != "" {
+			other = codes.Code(1 + (int(excCode(dir, cur.Code))+3)%16) // never OK: status.Error(OK) would be a nil error, and the classifier must return a non-nil one
+		}
 		switch cur.ExcErr {
 		case 1:
 			err = status.Error(other, "downstream said no")
 		case 2:
 			err = fmt.Errorf("shedding: %w", status.Error(other, "downstream said no"))
 		}
-		return exceededResp, codes.Code(cur.Code), err
+		return exceededResp, excCode(dir, cur.Code), err
+	}
+	exceededFor := func(d string) gcl.LimitExceededResponseClassifier {
+		return func(ctx context.Context, method string, req interface{}, l core.Limiter) (interface{}, codes.Code, error) {
+			exceededDir = d
+			defer func() { exceededDir = "" }()
+			return exceeded(ctx, method, req, l)
+		}
 	}
 	resps := []any{nil, &struct{ a int }{1}, "text", 7}
 	callErrs := []error{nil, errors.New("wrapped call failed"), io.EOF, context.Canceled, status.Error(codes.Unavailable, "down"), context.DeadlineExceeded, io.ErrUnexpectedEOF}
@@ -201,8 +226,11 @@ func runC14(_ *testing.T, c c14Case) (out kit.Outcome) {
 		if c.CustomLimiter && c.StreamCustom != "recv" {
 			opts = append(opts, gcl.WithStreamSendLimiter(sendL))
 		}
-		if c.CustomExceeded {
-			opts = append(opts, gcl.WithStreamRecvLimitExceededResponseClassifier(exceeded), gcl.WithStreamSendLimitExceededResponseClassifier(exceeded))
+		if c.CustomExceeded && c.ExcOnly != "send" {
+			opts = append(opts, gcl.WithStreamRecvLimitExceededResponseClassifier(exceededFor("recv")))
+		}
+		if c.CustomExceeded && c.ExcOnly != "recv" {
+			opts = append(opts, gcl.WithStreamSendLimitExceededResponseClassifier(exceededFor("send")))
 		}
 		if c.CustomClass {
 			cl := func(ctx context.Context, req interface{}, info *grpc.StreamServerInfo, err error) gcl.ResponseType {
@@ -298,8 +326,17 @@ func runC14(_ *testing.T, c c14Case) (out kit.Outcome) {
 		if !grant {
 			sawRefusal = true
 			want := []string{fmt.Sprintf("acquire(%s)=refused", limName)}
-			if c.CustomExceeded {
+			customExc := c.CustomExceeded && (c.Kind != "stream" || c.ExcOnly == "" || c.ExcOnly == call.Dir)
+			if customExc && c.Kind == "stream" {
+				want = append(want, "exceeded-classifier-"+call.Dir+"(limiter-"+limName+")")
+			} else if customExc {
 				want = append(want, "exceeded-classifier(limiter-"+limName+")")
+			}
+			for _, e := range ev {
+				if strings.HasPrefix(e, "exceeded-classifier") && (len(want) < 2 || e != want[1]) {
+					o := kit.Viol(c.Kind+":refused-classifier", "call %d %+v refused by limiter %s: events [%s]: the limit-exceeded classifier consulted is not the one configured for this call (%v)", i, call, limName, desc, want[1:])
+					return &o
+				}
 			}
 			ok := len(ev) >= 1 && ev[0] == want[0]
 			for _, e := range ev {
@@ -315,14 +352,16 @@ func runC14(_ *testing.T, c c14Case) (out kit.Outcome) {
 				return &o
 			}
 			wantCode := codes.ResourceExhausted
-			if c.CustomExceeded {
+			if customExc && c.Kind == "stream" {
+				wantCode = excCode(call.Dir, call.Code)
+			} else if customExc {
 				wantCode = codes.Code(call.Code)
 			}
 			if status.Code(gotErr) != wantCode {
 				o := kit.Viol(c.Kind+":refused-code", "call %d refused: returned status %v, limit-exceeded classifier chose %v", i, status.Code(gotErr), wantCode)
 				return &o
 			}
-			if c.Kind == "server" && c.CustomExceeded && gotResp != any(exceededResp) {
+			if c.Kind == "server" && customExc && gotResp != any(exceededResp) {
 				o := kit.Viol("server:refused-resp", "call %d refused: response is not the limit-exceeded classifier's", i)
 				return &o
 			}
